@@ -82,6 +82,7 @@ class Case:
             self.undo_mem.clear()
             for k in [k for k in self.undo_disk if k < h - self.lim + 1]:
                 del self.undo_disk[k]                         # clear_excess_undo_info
+            self.pruned_below = max(getattr(self, 'pruned_below', 0), h - self.lim + 1)
             self.chain = self.chain[:h + 1]
             # C15 (second half), judged on the real DB only: no undo row below the window survives a start
             stale = [k for k in self.real.undo_heights() if k < h - self.lim + 1]
@@ -294,7 +295,18 @@ def run_case(res, rng, tier, groups, label):
                     r2 = c.backup()
                     if r2 != 'ok':
                         res.bump('backup_refused_' + r2)
-                        if top > tip_h - lim and c.dh.get(top, 1 << 60) <= tip_h:
+                        if top > tip_h - lim and top < getattr(c, 'pruned_below', 0) and r2 == 'ChainError':
+                            # the undo row was pruned by a start-up at a HIGHER tip; the chain has since
+                            # been reorganised to a lower one (the daemon moved to a shorter chain): the
+                            # window slid down onto pruned heights - the falling-height class F10
+                            res.bump('lowered_tip_refusals')
+                            c.direct_fail.append({
+                                'clause': 'C15: a block within the reorg limit of the tip cannot be undone',
+                                'tags': ['window', 'F10'],
+                                'detail': f'{r2} backing out height {top} (tip {tip_h}, reorg limit {lim}): its undo row was '
+                                          f'pruned by a start-up when the tip was at least {c.pruned_below + lim - 1}; the '
+                                          f'chain was reorganised to a lower tip since (falling daemon height)'})
+                        elif top > tip_h - lim and c.dh.get(top, 1 << 60) <= tip_h:
                             # C15 (first half), judged on the real code only: the block is among the
                             # `limit` most recent ones of a fully flushed tip, and while it was indexed
                             # the daemon was not above that tip (so it was inside its window then)
